@@ -336,6 +336,16 @@ def check_exporter(case, kind, tree, labels, acc):
         second = list(exporter)
         if head + list(it1) != lines or second != lines:
             raise Violation("identifier-stability", "%s: interleaved iterations of one exporter disagree" % ctx)
+        # ... and two iterations that really overlap: the first has emitted its node statements, a second one is started and
+        # advanced a little, the first one is finished, then the second
+        it1 = iter(exporter)
+        head = [next(it1) for _ in range(1 + len(options) + len(declared))]
+        it2 = iter(exporter)
+        part = [next(it2) for _ in range(min(2, len(lines)))]
+        rest1 = list(it1)
+        rest2 = list(it2)
+        if head + rest1 != lines or part + rest2 != lines:
+            raise Violation("overlapping-iterations", "%s: two overlapping iterations of one exporter give %r and %r instead of twice %r" % (ctx, head + rest1, part + rest2, lines))
         known = dict(ident)
         # the same exporter object after the tree has grown, and after the admitted set has shrunk
         # (stateful filter_/stop predicates are legitimate): every iteration is judged against the current state
@@ -405,8 +415,8 @@ def check_locale(case, acc):
     acc.tag("files_written_under_a_non_utf8_locale")
 
 
-def check_gc(case, acc):
-    """A long-lived UniqueDotExporter while nodes it has already named are detached, dropped and garbage-collected and new
+def check_gc(case, acc, exporter_cls=None, node_re=None, edge_re=None, closing=True):
+    """A long-lived UniqueDotExporter (or MermaidExporter) while nodes it has already named are detached, dropped and garbage-collected and new
     nodes are attached: identifiers stay distinct, surviving nodes keep theirs, edges refer to declared identifiers."""
     import gc
     import re
@@ -419,21 +429,21 @@ def check_gc(case, acc):
 
     def parse(lines):
         ids, edges = {}, []
-        for line in lines[1:-1]:
-            m = re.match(r'^\s*"([^"]+)" \[label="([^"]*)"\];$', line)
+        for line in (lines[1:-1] if closing else lines[1:]):
+            m = re.match(node_re or r'^\s*"([^"]+)" \[label="([^"]*)"\];$', line)
             if m:
                 if m.group(2) in ids:
                     raise Violation("syntax", "label %r declared twice in %r" % (m.group(2), lines))
                 ids[m.group(2)] = m.group(1)
                 continue
-            m = re.match(r'^\s*"([^"]+)" -> "([^"]+)";$', line)
+            m = re.match(edge_re or r'^\s*"([^"]+)" -> "([^"]+)";$', line)
             if not m:
                 raise Violation("syntax", "unexpected line %r" % (line,))
             edges.append((m.group(1), m.group(2)))
         return ids, edges
 
     root = build()
-    exporter = UniqueDotExporter(root)
+    exporter = (exporter_cls or UniqueDotExporter)(root)
     known = {}
     counter = 0
     for victim_index in case["victims"]:
@@ -612,7 +622,7 @@ def plan(tier, seed):
     tasks = [{"engine": "enum", "max_nodes": max_nodes, "index": i, "count": nshards * 2} for i in range(nshards * 2)]
     tasks += [{"engine": "hyp", "examples": examples, "seed": seed * 1000 + i} for i in range(nshards)]
     tasks += [{"engine": "gc"}, {"engine": "locale", "which": ["dot", "uniquedot"]}]
-    tasks += [{"engine": "wide", "widths": [w]} for w in ((300, 700) if tier == "quick" else (257, 300, 700, 1100, 2500))]
+    tasks += [{"engine": "wide", "widths": [w]} for w in ((300, 700, 4400) if tier == "quick" else (257, 300, 700, 1100, 2500, 4400, 9000))]
     return tasks
 
 
